@@ -8,7 +8,6 @@ theorem f_O_cache_po6 (s : St) (x0) (rest : List Sto) (r) : Inv s → s.opc = .p
     s.bufO = .cache x0 :: rest → Inv (applySto { s with bufO := rest } (.cache x0)) := by
   intro h hpc hb
   simp only [applySto]
-  cases h; simp only [hpc, ownerLocked, carry, resetting, ownerFlight] at *
-  tso_finish3
+  tso_fastO h hpc [po6]
 
 end MythVerif.WsqTso
